@@ -35,7 +35,7 @@ def strip_ws(s):
 
 
 _LIT = r'"(?:[^"\\]|\\.)*"'
-ARM_RE = re.compile(r'(%s) (?:if \(src == (%s)\) )?=> (\S+) :: (\S+) ,' % (_LIT, _LIT))
+ARM_RE = re.compile(r'(%s) (?:if \(src == (%s)\) )?=> (\S+) :: (\S+) (\{ \} )?,' % (_LIT, _LIT))
 NEW_RE = re.compile(r'FromStrError :: new \((%s)\)' % _LIT)
 
 
@@ -71,6 +71,54 @@ def parse_hits(field):
             i, _, h = x.partition(":")
             out.add((unhex(h), int(i)))
     return out
+
+
+def shapes_tie(chk, inproc):
+    """variants written `V()` / `V{}` / with fields: which enums the macro accepts (vs enum_accepts_shapes) and whether the
+    accepted expansion type-checks (rustc's verdict vs arms_typecheck)"""
+    cases = G.SHAPE_CASES
+    res = common.run_jsonl(inproc, [{"cmd": "expand", "derive": "FromStr", "item": G.shape_item(sh)} for _, sh in cases])
+    braces = "true" if G.read_flags()["arm_braces"] else "false"
+    terms = common.coq_eval(["Verif.C13.Model"], ["(enum_accepts_shapes [%s], arms_typecheck %s [%s])" %
+                            ("; ".join(G.SHAPE_COQ[x] for x in sh), braces, "; ".join(G.SHAPE_COQ[x] for x in sh)) for _, sh in cases], tag="c13e")
+    accepted = []
+    for (cid, sh), r, t in zip(cases, res, terms):
+        chk.count(("shape", cid), True)
+        item = G.shape_item(sh)
+        m_acc = t[0] == "true"
+        if isinstance(r, dict) and isinstance(r.get("panic"), dict) and "Only enums with no fields" in str(r["panic"].get("msg", "")):
+            r_acc = False
+        elif isinstance(r, dict) and isinstance(r.get("items"), list) and r["items"] and r["items"][0].get("kind") == "impl":
+            r_acc = True
+        else:
+            cls, why = G12.unreadable_class(r)
+            chk.violation(cls, {"rust": item, "response": str(r)[:800]}, "%s: %s" % (item, why))
+            continue
+        if r_acc != m_acc:
+            chk.violation("tie-model-shapes", {"rust": item, "model_accepts": m_acc, "expander_accepts": r_acc},
+                          "enum_accepts_shapes and the expander disagree on %s" % item)
+        if r_acc:
+            accepted.append((cid, sh, t[1] == "true"))
+    # rustc's verdict on the accepted ones
+    def build(subset):
+        mods = "\n".join("mod %s;" % cid for cid, _, _ in subset)
+        files = {cid + ".rs": "#![allow(dead_code)]\nuse derive_more::FromStr;\n%s\n" % G.shape_item(sh, with_derive=True) for cid, sh, _ in subset}
+        d = common.make_crate(CRATE + "_sh", "#![allow(dead_code)]\n%s\nfn main() {}\n" % mods, extra_files=files)
+        return common.cargo(d, ["build", "--message-format=json", "--quiet"])
+    live, failed = G12.build_dropping(chk, accepted, lambda u: u[0], build, what="C13 shapes crate")
+    common.cleanup_scratch(CRATE + "_sh")
+    for cid, sh, m_ok in accepted:
+        compiles = cid not in failed
+        item = G.shape_item(sh, with_derive=True)
+        if compiles != m_ok:
+            chk.violation("tie-model-shapes", {"rust": item, "model_typechecks": m_ok, "rustc_accepts": compiles,
+                                               "rustc": [(a, b) for a, b, _ in failed.get(cid, [])][:4]},
+                          "arms_typecheck and rustc disagree on %s" % item)
+        if not compiles:
+            chk.violation("empty-fields-variant", {"rust": item, "rustc": [(a, b) for a, b, _ in failed[cid]][:4]},
+                          "%s is accepted by the derive but its expansion does not compile (%s): the arm value `E::V` lacks the "
+                          "variant's `()` / `{}`" % (item, "; ".join(str(b) for _, b, _ in failed[cid][:2])))
+    chk.bump("variant_shape_enums", len(cases))
 
 
 def run(tier, seed, replay):
@@ -113,6 +161,8 @@ def run(tier, seed, replay):
         chk.bump("enum_variants:%d" % min(len(vs), 6))
         if any(v[0] for v in vs):
             chk.bump("has_raw_variant")
+        if any(len(v) > 2 and v[2] != "unit" for v in vs):
+            chk.bump("has_empty_tuple_or_brace_variant")
         if c.get("generic"):
             chk.bump("generic_enum")
         lows = [v[1].lower() for v in vs]
@@ -132,6 +182,8 @@ def run(tier, seed, replay):
     exp = common.run_jsonl(inproc, reqs)
     real_arms = {}
     real_ename = {}
+    real_trait = {}
+    real_header = {}
     for c, resp in zip(cases, exp):
         try:
             items = resp.get("items") if isinstance(resp, dict) else None
@@ -140,15 +192,22 @@ def run(tier, seed, replay):
                 chk.violation(cls, {"case": c, "rust": G.enum_item(c), "response": str(resp)[:1500]}, "%s: %s" % (G.enum_item(c, False), why))
                 continue
             it0 = items[0]
-            want_self = G.ident_src(c["enum"]) + ("<N>" if c.get("generic") else "")
+            want_self = G.ident_src(c["enum"]) + ("<N>" if c.get("generic") else "")      # (defaults never reach an impl)
             want_params = ["constN:usize"] if c.get("generic") else []
             if strip_ws(it0["self_ty"]) != want_self or [strip_ws(x) for x in it0["params"]] != want_params:
                 chk.violation("enum-impl-header", {"case": c, "rust": G.enum_item(c), "self_ty": it0["self_ty"], "params": it0["params"]},
                               "the FromStr impl of %s is for `%s` with parameters %s" % (G.enum_item(c, False), it0["self_ty"], it0["params"]))
+            real_trait[c["id"]] = strip_ws(it0["trait"])
+            real_header[c["id"]] = ([strip_ws(a) for a in it0["attrs"]], [strip_ws(x) for x in it0["params"]], strip_ws(it0["trait"]),
+                                    strip_ws(it0["self_ty"]), [strip_ws(w) for w in it0.get("where", [])])
             body = [m for m in it0["members"] if m["kind"] == "fn"][0]["body"]
             arms = []
             for m in ARM_RE.finditer(body):
                 arms.append((unescape(m.group(1)), None if m.group(2) is None else unescape(m.group(2)), m.group(4)))
+                if (m.group(5) is not None) != flags["arm_braces"]:
+                    chk.violation("tie-model-arms", {"case": c, "arm": m.group(0), "arm_braces": flags["arm_braces"]},
+                                  "the arm value of %s is spelled %r but the switch read from the source says braces=%s" %
+                                  (G.enum_item(c, False), m.group(0), flags["arm_braces"]))
             real_arms[c["id"]] = sorted(arms, key=repr)
             m = NEW_RE.search(body)
             real_ename[c["id"]] = unescape(m.group(1)) if m else None
@@ -201,9 +260,11 @@ def run(tier, seed, replay):
 
     # ---- 3. the model on the same declarations and inputs
     coq_cases = [c for c in cases if G.coq_lower(c) is not None]
-    exprs = ["run_case %s %s %s %s %s %s [%s] %d %s" %
+    exprs = ["(run_case %s %s %s %s %s %s [%s] %d %s, enum_header %s %s %s %s, error_message (shown %s %s))" %
              (G.coq_lower(c), ku, gu, nu, G.coq_ident(c["enum"]), G.coq_idents(c["variants"]),
-              "; ".join(str(ord(x)) for x in alphabets[c["id"]]), min(maxlen, coq_maxlen), G.coq_strs(extras[c["id"]]))
+              "; ".join(str(ord(x)) for x in alphabets[c["id"]]), min(maxlen, coq_maxlen), G.coq_strs(extras[c["id"]]),
+              common.coq_str(real_trait.get(c["id"], "?")), common.coq_str(G.ident_src(c["enum"])), G.coq_gparams(G.enum_generics(c)[0]),
+              common.coq_str(G.enum_generics(c)[1]), nu, G.coq_ident(c["enum"]))
              for c in coq_cases]
     terms = dict(zip([c["id"] for c in coq_cases],
                      common.coq_eval(["Verif.C13.Model"], exprs, batch=max(1, len(exprs) // 32 + 1), tag="c13a")))
@@ -263,7 +324,13 @@ def run(tier, seed, replay):
             if t is None:
                 chk.bump("oracle_only(no context-free lower instance)")
                 continue
-            m_arms, m_ename, m_hits, m_x = t
+            m_arms, m_ename, m_hits, m_x, m_hdr, m_msg = t       # (Coq prints the nested pairs flat)
+            if cid in real_header and G.header_view(m_hdr) != real_header[cid]:
+                chk.violation("tie-model-header", {"case": c, "model": G.header_view(m_hdr), "code": real_header[cid]},
+                              "enum_header and the expander disagree on the impl header of %s" % G.enum_item(c, False))
+            if msgs and msgs[0] != common.py_str(m_msg):
+                chk.violation("tie-model-error-name", {"case": c, "model": common.py_str(m_msg), "program": msgs},
+                              "error_message (src/str.rs Display) and the compiled derive disagree")
             m_arms = sorted(((common.py_str(pat), None if g == "None" else common.py_str(g[1]), common.py_str(v)) for (pat, g, v) in m_arms), key=repr)
             if cid in real_arms and m_arms != real_arms[cid]:
                 chk.violation("tie-model-arms", {"case": c, "model": m_arms, "code": real_arms[cid]},
@@ -290,6 +357,8 @@ def run(tier, seed, replay):
                           "cannot read the observation of %s: %s: %s" % (G.enum_item(c, False), type(e).__name__, e))
 
     chk.log("oracle and ties compared")
+    if not replay:
+        shapes_tie(chk, inproc)
     # ---- 4. newtypes
     if newtypes:
         nt_resp = exp[len(cases_all):len(cases_all) + len(newtypes)]
@@ -297,6 +366,15 @@ def run(tier, seed, replay):
         fields_expr = lambda fs: "[" + "; ".join("(%s, %s)" % ("None" if n is None else "Some " + common.coq_str(n), common.coq_str(ty)) for n, ty in fs) + "]"
         sterms = common.coq_eval(["Verif.C13.Model"], ["struct_expand %s" % fields_expr(nt[5]) for nt in newtypes] +
                                  ["struct_expand %s" % fields_expr(nn[2]) for nn in G.NOT_NEWTYPES], tag="c13b")
+        def real_trait_of(resp):
+            try:
+                return strip_ws(resp["items"][0]["trait"])
+            except Exception:
+                return "?"
+        hterms = common.coq_eval(["Verif.C13.Model"], ["struct_header %s %s %s %s" %
+                                 (common.coq_str(real_trait_of(resp)), common.coq_str("W"), G.coq_gparams(G.NT_GENERICS.get(nt[0], ([], ""))[0]),
+                                  common.coq_str(G.NT_GENERICS.get(nt[0], ([], ""))[1])) for nt, resp in zip(newtypes, nt_resp)], tag="c13d")
+        hdr_of = dict((nt[0], h) for nt, h in zip(newtypes, hterms))
         for nt, resp, t in zip(newtypes, nt_resp, sterms[:len(newtypes)]):
           try:
             cid = nt[0]
@@ -330,6 +408,16 @@ def run(tier, seed, replay):
             if (got_body, got_err) != (want_body, want_err):
                 chk.violation("tie-model-newtype", {"newtype": nt[1], "model": [want_body, want_err], "code": [got_body, got_err]},
                               "model and expander disagree on the expansion of %s" % nt[1])
+            real_hdr = ([strip_ws(a) for a in it["attrs"]], [strip_ws(x) for x in it["params"]], trait, strip_ws(it["self_ty"]),
+                        [strip_ws(w) for w in it.get("where", [])])
+            if G.header_view(hdr_of[cid]) != real_hdr:
+                chk.violation("tie-model-header", {"newtype": nt[1], "model": G.header_view(hdr_of[cid]), "code": real_hdr},
+                              "struct_header and the expander disagree on the impl header of %s" % nt[1])
+            # every type parameter must carry the FromStr bound (what makes `<T as FromStr>::from_str` resolve)
+            for x in real_hdr[1]:
+                if not x.startswith("const") and not x.startswith("'") and trait not in x.split(":", 1)[-1].split("+"):
+                    chk.violation("newtype-missing-bound", {"newtype": nt[1], "params": real_hdr[1]},
+                                  "the impl for %s does not bound type parameter `%s` by %s" % (nt[1], x, trait))
             n_tie += 1
             # model evaluated: `bool_parse` instance against the compiled bool newtype
             if nt[3] == "bool" and cid == "nt_bool":
